@@ -44,6 +44,10 @@ type RepSpec struct {
 	// media timeline (not a contiguous representation).
 	GapAfter int    `json:"gapafter,omitempty"`
 	GapTicks uint64 `json:"gapticks,omitempty"`
+	// JitterSeg > 0: the first two samples of segment number JitterSeg (1-based) last FrameDur-1 and FrameDur+1
+	// ticks (same segment timing, but the representation has no constant sample duration any more).
+	// Only with durations in the trun entries (DurMode "").
+	JitterSeg int `json:"jitterseg,omitempty"`
 }
 
 // AssetSpec describes one generated asset.
@@ -218,12 +222,21 @@ func genSegment(a AssetSpec, repIdx int, r RepSpec, segIdx int, si SegInfo, trac
 			pad = (k*7 + segIdx) % 5
 		}
 		data := SamplePayload(a.Tag, repIdx, segIdx, k, pad)
+		dur := r.FrameDur
+		if r.JitterSeg == segIdx+1 && r.DurMode == "" && si.Frames >= 2 && r.FrameDur > 1 {
+			switch k {
+			case 0:
+				dur--
+			case 1:
+				dur++
+			}
+		}
 		frag.AddFullSample(mp4.FullSample{
-			Sample:     mp4.Sample{Flags: flags, Dur: r.FrameDur, Size: uint32(len(data))},
+			Sample:     mp4.Sample{Flags: flags, Dur: dur, Size: uint32(len(data))},
 			DecodeTime: t,
 			Data:       data,
 		})
-		t += uint64(r.FrameDur)
+		t += uint64(dur)
 	}
 	switch r.DurMode {
 	case "tfhd":
